@@ -401,6 +401,23 @@ def case_rs_hs(acc, role, cfg, raw, segs, coalesced, sid=None):
                 acc.bad("C13|spurious-delivery|%s" % tag, d, rarg)
             if len(closes) != 1 and not esc:
                 acc.bad("C13|onclose-count|%s|%d" % (tag, len(closes)), d, rarg)
+        if role == "server" and verdict == "valid" and len(segs) == 1 and not coalesced and (raw[1] >> 4) in (0, 7, 15):
+            # the attached handler sends from onOpen: its frame follows the 4-octet handshake reply
+            from autobahn.wamp import message as M_
+            msg0 = M_.Event(11, 22, args=[1])
+            ep2 = L.Endpoint("rs", "server", cfg, maker=L.SessionMaker("rec", {"open_send": msg0}))
+            ep2.take()
+            ep2.feed(raw)
+            out2 = bytes(ep2.take())
+            acc.evals += 1
+            acc.inc("hs_handler_sends_on_open|%s" % fw)
+            k2, h2 = R.judge_written_reply(out2[:4])
+            rest = out2[4:]
+            okf = len(rest) >= 4 and rest[0] == 0 and int.from_bytes(rest[1:4], "big") == len(rest) - 4
+            if k2 != "accept" or not okf or ep2.escapes():
+                acc.bad("C13|reply-not-first|%s" % tag, "handler sends in onOpen: wrote %s (reply must come first, "
+                        "then one frame); escapes %s" % (out2[:24].hex(), ep2.escapes()[:1]), rarg)
+            ep2.finish()
     else:
         if attached:
             acc.bad("C13|attached-invalid|%s|%s" % (tag, why), d, rarg)
